@@ -113,7 +113,9 @@ def check_training(ctx, idx):
         policy = TabularQPolicy(env0, rng.uniform(-1, 1, (int(env0.T.shape[0]), int(env0.T.shape[1]))), epsilon=0.5)
         warm = LS
     backend = RecordingBackend()
-    cb = CallbackList(callbacks=[LoggingCallback(backend, name="verif", alpha=alpha),
+    # several backends on odd configurations: every backend receives every record, in order
+    extra = [RecordingBackend() for _ in range(idx % 3)]
+    cb = CallbackList(callbacks=[LoggingCallback([backend] + extra if extra else backend, name="verif", alpha=alpha),
                                  HistoryCallback(size=warm + iters * T + 1)])
     key = jr.key(int(rng.integers(0, 2**31)))
     state = eqx.filter_jit(lambda k: algo.reset(env, policy, key=k, callback=cb))(key)
@@ -151,6 +153,13 @@ def check_training(ctx, idx):
         if len(recs) != k:
             ctx.phi_fail("one_record_per_iteration_in_order", case, key="log:record-count")
             return
+        for j, b2 in enumerate(extra):
+            ctx.count("training:additional-backends-checked")
+            if [(s_, sorted(d_.items())) for s_, d_ in b2.records] != [(s_, sorted(d_.items())) for s_, d_ in recs]:
+                ctx.phi_fail("one_record_per_iteration_in_order",
+                             {**case, "backend": j + 1, "records_of_that_backend": [(s_, len(d_)) for s_, d_ in b2.records]},
+                             key="log:every-backend")
+                return
         step, scal = recs[-1]
         if step != sum(steps) or [s for s, _ in recs] != sorted(s for s, _ in recs):
             ctx.phi_fail("record_carries_cumulative_environment_steps", case, key="log:record-step")
